@@ -53,7 +53,11 @@ struct Chooser {
   // uniform-ish integer in [lo, hi], lo <= hi.  Smaller = simpler.
   virtual uint64_t raw(uint64_t lo, uint64_t hi) = 0;
   uint64_t draw(uint64_t lo, uint64_t hi) {
-    uint64_t v = (hi <= lo) ? lo : raw(lo, hi);
+    // a degenerate range consumes nothing from the source and is not recorded either: a ReplayChooser fed with
+    // `rec` must see exactly the values that raw() handed out (recording them made every inline-mode replay of a
+    // case with such a draw decode to a different case - its failure was then dropped as "unreproduced")
+    if (hi <= lo) return lo;
+    uint64_t v = raw(lo, hi);
     rec.push_back(v);
     return v;
   }
